@@ -449,3 +449,119 @@ SPECS["C10"] = CheckSpec(
     technique="explicit-state BFS over operation histories on the real object against a set model and callback mirror (SEQX)",
     design_ref="DESIGN.md §3 C10", engine="SEQX",
 )
+
+
+# --------------------------------------------------------------------------- ENVX (a): byte level (C03 C04 C14)
+BYTES_BUILD = dict(flavour="asan", name="envx_bytes", harness_srcs=["envx_bytes.c"],
+                   exclude_lib=["rtrlib/pfx/trie/trie-pfx.c", "rtrlib/spki/hashtable/ht-spkitable.c"],
+                   extra_ldflags=["-Wl,--wrap=lrtr_get_monotonic_time,--wrap=sleep,--wrap=lrtr_dbg"])
+BYTES_MSAN = dict(BYTES_BUILD, flavour="msan")
+
+
+def _bj(prop, args, label, n, build=None):
+    return [Job("envx_bytes", build or BYTES_BUILD, ["--prop=" + prop] + args + ["--shard=%d" % i, "--nshards=%d" % n],
+                "%s shard %d/%d" % (label, i, n)) for i in range(n)]
+
+
+def c04_jobs(tier, repo):
+    if tier == "quick":
+        return (_bj("C04", ["--set=single", "--bound=1"], "single hostile PDU, 1 deviation", 4)
+                + _bj("C04", ["--set=semantic", "--bound=1"], "3-PDU responses, 1 deviation", 4)
+                + _bj("C04", ["--set=pairs", "--reduced", "--bound=0"], "pairs over the reduced alphabet", 4)
+                + _bj("C04", ["--set=single", "--bound=1", "--all-cuts"], "single hostile PDU, 1 deviation, every cut position", 4))
+    return (_bj("C04", ["--set=single", "--reduced", "--bound=2", "--all-cuts"], "reduced alphabet, 2 deviations, every cut", 16)
+            + _bj("C04", ["--set=single", "--bound=2"], "single hostile PDU, 2 deviations", 8)
+            + _bj("C04", ["--set=semantic", "--bound=2"], "3-PDU responses, 2 deviations", 8)
+            + _bj("C04", ["--set=pairs", "--bound=1"], "all pairs, 1 deviation", 32))
+
+
+def c14_jobs(tier, repo):
+    if tier == "quick":
+        return (_bj("C14", ["--set=single", "--bound=1"], "single hostile PDU, 1 deviation incl. partial writes", 4)
+                + _bj("C14", ["--set=semantic", "--bound=1"], "3-PDU responses, 1 deviation incl. partial writes", 4)
+                + _bj("C14", ["--set=single", "--bound=0"], "single hostile PDU (msan shadow of send buffers)", 2, BYTES_MSAN)
+                + _bj("C14", ["--set=semantic", "--bound=0"], "3-PDU responses (msan shadow of send buffers)", 2, BYTES_MSAN))
+    return (_bj("C14", ["--set=single", "--bound=2"], "single hostile PDU, 2 deviations", 8)
+            + _bj("C14", ["--set=semantic", "--bound=2"], "3-PDU responses, 2 deviations", 8)
+            + _bj("C14", ["--set=pairs", "--bound=0"], "all pairs", 16)
+            + _bj("C14", ["--set=single", "--bound=1"], "single (msan)", 4, BYTES_MSAN)
+            + _bj("C14", ["--set=semantic", "--bound=1"], "3-PDU responses (msan)", 4, BYTES_MSAN))
+
+
+def c03_jobs(tier, repo):
+    if tier == "quick":
+        return (_bj("C03", ["--n=2", "--bound=1"], "responses <=2 PDUs, 1 transport fault", 4)
+                + _bj("C03", ["--n=3", "--bound=0"], "responses <=3 PDUs", 6)
+                + _bj("C03", ["--n=4", "--small-alphabet", "--bound=0"], "responses <=4 PDUs, announce/withdraw alphabet", 6))
+    return (_bj("C03", ["--n=3", "--bound=1"], "responses <=3 PDUs, 1 transport fault", 16)
+            + _bj("C03", ["--n=2", "--bound=2"], "responses <=2 PDUs, 2 transport faults", 8)
+            + _bj("C03", ["--n=4", "--bound=0"], "responses <=4 PDUs", 16)
+            + _bj("C03", ["--n=5", "--small-alphabet", "--bound=0"], "responses <=5 PDUs, announce/withdraw alphabet", 8))
+
+
+_BYTES_NOTE = ("Direct calls of the real rtr_sync / rtr_wait_for_sync (C04, C14) and the real FSM thread (C03) over the "
+               "function-pointer transport; clock and sleep replaced at link time. PDU encoder/decoder of the harness is "
+               "written from RFC 8210, independent of packets.c. ASan+UBSan with assertions enabled (alignment, signed "
+               "shift-base and zero-length-VLA checks off, see DESIGN §2.1); a crash or hang is a violation.")
+
+SPECS["C04"] = CheckSpec(
+    "C04", c04_jobs,
+    rule="case = byte stream = optional Cache Response + 1..2 PDUs from a hostile alphabet (every type 0..11,255 x "
+         "version {0,1,2} x length field {0,7,8,exact-1,exact,exact+1,3248,3249,2^32-1}; prefix PDUs with flags "
+         "{0,1,2,255} x prefix/max length {0,1,32,33,128,129,255}^2; Error Reports with 25 nested-length pairs; router "
+         "keys; three-PDU responses over a 15-symbol semantic alphabet; chains of 40/140 over-long prefixes) x 4 stream "
+         "tails x both entry points; on every case a DFS over deviations at every receive call (short read at 1 / n-1 "
+         "or every cut position, WOULDBLOCK, ERROR, INTR, CLOSED) up to the bound; oracle: sanitizer-clean, returns, "
+         "same outcome for every pure segmentation, malformed first PDU never applied and fails the exchange, "
+         "read-side battery afterwards; states = streams, transitions = executions of the real entry point",
+    assumptions=["byte streams outside the alphabet (random bytes) are not enumerated: the receive path branches only on "
+                 "comparisons of header fields with constants, whose boundary values are in the alphabet",
+                 "a transport never returns 0 from recv (the transport contract)"],
+    counters_map={"distinct": ["distinct_outcomes", "segmentations_compared"]},
+    level_text="Deviation-bounded exhaustive exploration of environment answers on the real receive path: every stream "
+               "of the hostile alphabet under every read segmentation / transport fault within the bound, with a "
+               "differential oracle (segmentation independence) and sanitizers as crash oracle.",
+    level_note=_BYTES_NOTE,
+    technique="stateless DFS over environment answers with a deviation bound on the real code (ENVX-a)",
+    design_ref="DESIGN.md §3 C04, §2.5 ENVX", engine="ENVX",
+)
+
+SPECS["C14"] = CheckSpec(
+    "C14", c14_jobs,
+    rule="the C04 streams with an identifiable offending PDU (bad length, unknown type, foreign version, unexpected PDU, "
+         "session mismatch in Cache Response / End of Data, duplicate announcement, unknown withdrawal, bad flags / "
+         "over-long prefix, received Error Report) x partial-write patterns of send (all, 1 byte, half, error) as "
+         "deviations; every byte handed to send() must parse into complete PDUs of the negotiated version with length "
+         "field = bytes and <= 3248; the first Error Report must carry an accepted code for the class, encapsulate a "
+         "byte-exact prefix of the offending PDU as received, and have consistent lengths; none after a received Error "
+         "Report; MSan jobs test the shadow of every send buffer",
+    assumptions=["accepted code sets per violation class are listed in DESIGN §5 (the statement gives no table)",
+                 "the obligation to send a report is judged on undisturbed runs of streams whose first violation is "
+                 "unambiguous; the shape of whatever is sent is judged on every run"],
+    counters_map={"distinct": ["distinct_outcomes", "segmentations_compared"]},
+    level_text="Exhaustive exploration of violation classes x PDU types x hostile field values x partial-write patterns "
+               "on the real send/receive path with an independent PDU decoder as oracle; MSan decides the "
+               "uninitialised-memory clause on the same streams.",
+    level_note=_BYTES_NOTE,
+    technique="stateless DFS over environment answers with a deviation bound on the real code (ENVX-a), asan + msan builds",
+    design_ref="DESIGN.md §3 C14, §5", engine="ENVX",
+)
+
+SPECS["C03"] = CheckSpec(
+    "C03", c03_jobs,
+    rule="start state reached by a real initial synchronisation through the real FSM thread (socket holds O = 3 prefixes "
+         "+ 1 key; another source holds overlapping records in the same tables); then EVERY response of the family "
+         "{delta, reload after Cache Reset} x PDU sequences up to the length bound over 22 symbols (announce / withdraw "
+         "of present / absent IPv4, IPv6 and router-key records incl. the twin of the other source's record, flags=2, "
+         "Serial Notify, Reset Query, Cache Reset, Cache Response, bad-length PDU, Error Report, wrong-version PDU) x 5 "
+         "terminators (End of Data ok / foreign session, timeout, transport error, close), plus one transport fault at "
+         "every receive call of the response; the FSM runs on until its next query; oracle per the statement",
+    assumptions=["responses longer than the bound and record universes other than the 7-record one are not enumerated"],
+    counters_map={"distinct": ["distinct_outcomes"]},
+    level_text="Exhaustive enumeration of a bounded response family against a sequential reference model, executed "
+               "through the real FSM so that 'the next query' is observed at the transport; transport faults at every "
+               "receive position as bounded deviations.",
+    level_note=_BYTES_NOTE,
+    technique="exhaustive response enumeration + deviation-bounded DFS over transport faults on the real FSM (ENVX-a)",
+    design_ref="DESIGN.md §3 C03", engine="ENVX",
+)
